@@ -50,6 +50,28 @@ func checkC04(p *Prog, r *Report) {
 	checkProxiesCancellable(p, r, rAnch, rSel, rGo)
 	checkEventSwitch(p, r, rEv)
 	checkEventsLossless(p, r, r.Rule("events-lossless", "an event is never dropped: every send of an Event blocks until taken (or the context ends)"))
+	/* A transport fault which only shows when flushing must end the input
+	direction at once (and with it the shell), not when more traffic
+	arrives: the flush used can report failure whenever the writer can. */
+	if fn, _, _ := findProxyIn(p); nil != fn {
+		rFault := r.Rule("fault-ends-shell", "the input proxy flushes with the writer's FlushError when it has one, so a failed flush is an error which ends the stream")
+		w := ioOperand(fn, "Writer")
+		var fcall *ssa.Call
+		eachInstr(fn, func(i ssa.Instruction) {
+			cc, ok := i.(*ssa.Call)
+			if !ok || cc.Common().IsInvoke() || nil != cc.Common().StaticCallee() {
+				return
+			}
+			if _, isPhi := p.resolveUp(cc.Common().Value).(*ssa.Phi); isPhi && 0 == len(cc.Common().Args) {
+				fcall = cc
+			}
+		})
+		if nil != w && nil != fcall {
+			checkFlushSelection(p, rFault, fn, fcall, w)
+		} else {
+			rFault.Unproven(fnName(fn)+":flush", fn.Pos(), "the flush function used by the input proxy was not found (see C02)")
+		}
+	}
 }
 
 // checkReleaseTable evaluates the release specification on every admitted
